@@ -303,6 +303,9 @@ func runSelect(s *Select, db DB, ctes map[string]*Table, params map[string]val.V
 	}
 	if s.Limit != nil {
 		v := Eval(s.Limit, &Ctx{Row: NewEnv(), Params: params})
+		if v.K == val.Float && v.F >= 9.2e18 && s.Limit.K == "num" && !strings.ContainsAny(s.Limit.Text, ".eE") {
+			v = val.I(int64(^uint64(0) >> 1)) // an integer literal beyond int64 limits nothing
+		}
 		if v.K != val.Int || v.I < 0 {
 			return nil, qerr("LIMIT is not a non-negative integer: %v", v)
 		}
